@@ -283,7 +283,11 @@ def run(chk):
     # ---- C12.nofrag0: no empty fragment is retained ------------------------------------------------------------------------------------
     # `had_fragments` is a byte count: an empty slice appended when a read ends right after the header leaves the list non-empty but the
     # count 0, so the single-chunk path is taken and the list is never cleared - one leaked entry per message until the cap pauses reading
-    apps = [c for c in prog.calls_in(fdn.node) if norm.raw(c.func) == "self._payload_fragments.append"]
+    # (round 7) the append may be called through a cached bound method (`self._add_fragment = self._payload_fragments.append`)
+    _wr = repo.cls(MOD, WR)
+    _al = {a.targets[0].attr for m_ in _wr.methods.values() for a in ast.walk(m_.node) if isinstance(a, ast.Assign) and isinstance(a.targets[0], ast.Attribute)
+           and norm.raw(a.targets[0].value) == "self" and norm.raw(a.value) == "self._payload_fragments.append"}
+    apps = [c for c in prog.calls_in(fdn.node) if norm.raw(c.func) == "self._payload_fragments.append" or (isinstance(c.func, ast.Attribute) and norm.raw(c.func.value) == "self" and c.func.attr in _al)]
     inc = [c for c in apps if PC.has_lit(PC.pc(c, raw=True), [("self._payload_bytes_to_read != 0", True), ("self._payload_bytes_to_read == 0", False), ("self._payload_bytes_to_read", True)], True) is not None]
     if not inc:
         chk.analysis_error("C12.nofrag0: the append of an incomplete frame's fragment was not found")
@@ -332,6 +336,7 @@ def run(chk):
     hunt3_rules(chk, repo)
     hunt4_rules(chk, repo)
     hold_rule(chk, repo)
+    bound_alias_rule(chk, repo)
 
 
 def _self_attrs_set(cls, stmts, depth=1):
@@ -396,6 +401,43 @@ def hunt3_rules(chk, repo):
                               f"{cname} closes the connection (1006) for a missing PONG although its own flow control has paused reading (the application is slow to consume a burst): the PONG sits unread in the socket buffer, the peer is alive")
         if not verdicts:
             chk.analysis_error(f"C12.heartbeat.paused: {cname}._pong_not_received does not call _handle_ping_pong_exception")
+
+
+def bound_alias_rule(chk, repo, rule="C12.alias.bound"):
+    """Rule written after seeding round 7 (seed C12-7): a cached bound method belongs to the object it was taken from.
+    `self._put = self._buffer.append` is a sound micro-optimisation while `self._buffer` is never bound to another object.  Where the
+    attribute is rebound (the fragment list is replaced by `[b"".join(...)]` when the fragment cap merges it), the cached method goes on
+    writing into the orphaned object while len(), join() and clear() act on the new one: the frame is delivered truncated, later frames
+    that span several reads come out empty, and the cap never fires again."""
+    n = 0
+    for rel in ("aiohttp/_websocket/reader_py.py", "aiohttp/_websocket/writer.py", "aiohttp/streams.py", "aiohttp/http_parser.py", "aiohttp/http_writer.py", "aiohttp/base_protocol.py", "aiohttp/client_proto.py"):
+        mod = repo.module(rel)
+        for ci in mod.classes.values():
+            aliases = []
+            for mname, m in ci.methods.items():
+                for a in ast.walk(m.node):
+                    if isinstance(a, ast.Assign) and len(a.targets) == 1 and isinstance(a.targets[0], ast.Attribute) and norm.raw(a.targets[0].value) == "self" \
+                            and isinstance(a.value, ast.Attribute) and isinstance(a.value.value, ast.Attribute) and norm.raw(a.value.value.value) == "self":
+                        aliases.append((a.targets[0].attr, a.value.value.attr, a.value.attr, m, a))
+            for alias, owner, meth, m0, a0 in aliases:
+                n += 1
+                rebinds = []
+                for mname, m in ci.methods.items():
+                    for b in ast.walk(m.node):
+                        if isinstance(b, ast.Assign) and any(norm.raw(t) == f"self.{owner}" for t in b.targets) and b is not a0:
+                            blk = PC._block_of(b) or []
+                            # fine when the alias is taken again right there, or when this is the construction the alias was taken from
+                            again = any(isinstance(x, ast.Assign) and norm.raw(x.targets[0]) == f"self.{alias}" and x.lineno > b.lineno for x in blk)
+                            first = m is m0 and b.lineno < a0.lineno
+                            if not again and not first:
+                                rebinds.append((m, b))
+                if rebinds:
+                    m, b = rebinds[0]
+                    chk.violation(rule, b, K.short(b), f"self.{alias} = self.{owner}.{meth}  again after the rebind (or no cached method)",
+                                  f"{ci.name} caches `self.{owner}.{meth}` in self.{alias}, and {m.name}() binds self.{owner} to a new object: the cached method keeps writing into the old one - a frame that trickles in over more reads than the fragment cap is delivered truncated to what was buffered at the merge, every later frame that spans more than one read comes out empty or short, and the orphaned list grows without bound")
+                else:
+                    chk.ok(rule, a0, f"{ci.name}: self.{owner} is never rebound after `self.{alias} = self.{owner}.{meth}` was taken")
+    chk.expect_count(rule, n, 2, "cached bound methods of attributes in the reader / stream classes")
 
 
 def hold_rule(chk, repo, rule="C12.hold", why=None):
